@@ -119,6 +119,34 @@ theorem variants_line_filter (appendSnp : Bool) (start stop : Int) (name : Strin
     funext v; simp [inWindow]
   rw [hf]
 
+/-- the columns of the reference bases, as the model and as the specification list them -/
+theorem refBaseCols_eq (r : List Nat) : ∀ (l : List (Nat × Nat)),
+    (l.filterMap fun (b, i) => if b != dash then some i else none) = (l.filter fun (b, _) => b != dash).map (·.2) := by
+  intro l
+  induction l with
+  | nil => rfl
+  | cons x t ih =>
+    obtain ⟨b, i⟩ := x
+    simp only [List.filterMap_cons, List.filter_cons]
+    by_cases h : (b != dash) = true
+    · simp only [h, if_true, List.map_cons]; rw [ih]
+    · simp only [h, Bool.false_eq_true, if_false]; rw [ih]
+
+/-- **C15.topa_window** — `sam toPairAlign --start s --end e` is the untrimmed pair cut from the column of reference
+base s to the column of reference base e (inclusive), for every gapped pair and every window inside the reference -/
+theorem topa_window (p : List Nat × List Nat) (s e : Nat)
+    (hs : s - 1 < ((p.1.zip (List.range p.1.length)).filter fun (b, _) => b != dash).length)
+    (he : e - 1 < ((p.1.zip (List.range p.1.length)).filter fun (b, _) => b != dash).length) :
+    trimPair p s e = specTrimPair p s e := by
+  unfold trimPair specTrimPair
+  simp only []
+  rw [refBaseCols_eq p.1]
+  generalize hidx : ((p.1.zip (List.range p.1.length)).filter fun (b, _) => b != dash) = idx at *
+  have h1 : idx[s - 1]? = some idx[s - 1] := List.getElem?_eq_getElem hs
+  have h2 : idx[e - 1]? = some idx[e - 1] := List.getElem?_eq_getElem he
+  rw [h1, h2]
+  simp only [List.getD_eq_getElem?_getD, List.getElem?_map, h1, h2, Option.map_some, Option.getD_some]
+
 /-- non-vacuity: 10 characters in lines of 4 -/
 example : chunk 4 [1, 2, 3, 4, 5, 6, 7, 8, 9, 10] = [[1, 2, 3, 4], [5, 6, 7, 8], [9, 10]] := by
   simp [chunk]
